@@ -50,7 +50,7 @@ PROPS = {
         trusted=["std::collections::HashMap as a finite map with unspecified iteration order"],
     ),
     "C01": dict(
-        suites=[("pool", 2500, 200000)],
+        suites=[("pool", 2500, 200000), ("dhcp", 1200, 30000)],
         extracted=["pool.requestedInUseCmp", "pool.newInUseCmp", "pool.ownCurrentCmp", "pool.step1Order", "pool.step2Order", "pool.structFields", "dhcp.handlePktExclusive"],
         rule=POOL_RULE,
         assumptions=POOL_ASSUME, trusted=POOL_TRUST,
@@ -72,7 +72,7 @@ PROPS = {
         rule=DHCP_RULE + " || " + POOL_RULE, assumptions=POOL_ASSUME, trusted=POOL_TRUST + DHCP_TRUST,
     ),
     "C20": dict(
-        suites=[("pool", 2000, 80000), ("leasejson", 2500, 200000)],
+        suites=[("pool", 2000, 80000), ("leasejson", 2500, 200000), ("leasedb", 300, 3000)],
         extracted=["pool.metricsSql", "pool.metricsReturnOrder"],
         rule=POOL_RULE + " || lease tables of 0..8 rows with client ids of 0..255 arbitrary octets and option blobs whose host-name "
              "option is drawn from quotes, backslashes, every control character, DEL, invalid UTF-8, U+2028 and random octets, "
@@ -91,7 +91,7 @@ PROPS = {
     ),
     "C16": dict(
         suites=[("bucket", 3000, 400000), ("ratelimit", 2500, 300000)],
-        extracted=["dns.MAX_TOKENS", "dns.TOKENS_PER_SECOND", "dns.costFloor", "dns.ratelimitOnlyRefused", "dns.goodCookieExempt"],
+        extracted=["dns.MAX_TOKENS", "dns.TOKENS_PER_SECOND", "dns.costFloor", "dns.ratelimitOnlyRefused", "dns.goodCookieExempt", "dns.cookieKeyRotationsAtStart"],
         rule="token bucket: sequences of 1..30 check/deplete calls under a virtual Clock with costs and gaps around every boundary "
              "(0, capacity, capacity+1, refill period +-1); rate limiter: sequences of 1..40 should_ratelimit calls from one source "
              "(reply sizes 40..500, query sizes 17..512, REFUSED and other rcodes, idle gaps around the refill period) mixed with "
@@ -104,7 +104,7 @@ PROPS = {
     ),
     "C06": dict(
         suites=[("cache", 4000, 500000)],
-        extracted=[],
+        extracted=["dns.cacheKeyFromQuery"],
         rule="histories of 2..15 ops over store(key, reply with TTLs 0..2^32-1 spread over the three sections, also empty replies) x "
              "lookup(key or near-miss key differing in case / type / DO / CD) x expire x clock advance (around 1 s, the smallest "
              "TTL +-1 ns, the 1800 s poll) through the cache's own insert/lookup/expire functions under tokio's paused clock; "
